@@ -5,7 +5,7 @@
 (* The concrete call (name + arguments in the harness' JSON vocabulary) is recorded in  *)
 (* lastOp, its outcome class in lastOut; hist is the path from Init (hidden by VIEW).   *)
 (* A refused call is UNCHANGED obj by construction - that is what the code is held to.   *)
-EXTENDS C3DFormat, TLC
+EXTENDS C3DFormat, TLC, IOUtils
 
 CONSTANTS
   PNames, ANames,        \* point / channel names (code sequences) that may be declared
@@ -68,6 +68,7 @@ FrameOfKind(kind, tag) ==
     [] kind = "empty"  -> EmptyFrame
     [] kind = "padded" -> PadNames(MkFrame(PLabels, DeclSubs, ALabels, tag))                       \* names given with a trailing space (setter)
     [] kind = "ctorpad"-> PadNames(MkFrame(PLabels, DeclSubs, ALabels, tag)) @@ [ctor |-> 1]     \* same, through the naming constructors
+    [] kind = "dupnames"-> MkFrame(<<XName, XName>>, 0, <<>>, tag)             \* two points of the same name (nothing declared): by-name look-up returns the first
     [] kind = "undeclA"-> MkFrame(PLabels, 1, <<YName>>, tag)               \* analog samples although no channel is declared
     [] kind = "undeclP"-> MkFrame(<<XName>>, DeclSubs, ALabels, tag)         \* a point although no point is declared
     [] kind = "nopts"  -> MkFrame(<<>>, DeclSubs, ALabels, tag)
@@ -77,6 +78,7 @@ KindApplies(kind) ==
     [] kind = "morept" -> PUsed >= 1
     [] kind \in {"lessch", "morech"} -> AUsed >= 1 /\ DeclSubs >= 1
     [] kind \in {"padded", "ctorpad"} -> PUsed >= 1
+    [] kind = "dupnames" -> PUsed = 0 /\ PLabels = <<>>
     [] kind = "undeclA" -> AUsed = 0 /\ ALabels = <<>>
     [] kind = "undeclP" -> PUsed = 0 /\ PLabels = <<>>
     [] kind = "nopts" -> PUsed >= 1 /\ AUsed >= 1 /\ DeclSubs >= 1
@@ -417,7 +419,7 @@ Next ==
   \/ \E r \in ARates : PhaseDecl /\ SetAnalogRate(r)
   \/ \E n \in PNames : (PhaseDecl \/ NF > 0) /\ DeclPoint(n)
   \/ \E n \in ANames : (PhaseDecl \/ NF > 0) /\ DeclAnalog(n)
-  \/ \E k \in FrameKinds, t \in Tags, i \in IdxRange : ShapeReady /\ AddFrame(k, t, i)
+  \/ \E k \in FrameKinds, t \in Tags, i \in IdxRange : (ShapeReady \/ k = "dupnames") /\ AddFrame(k, t, i)
   \/ \E k \in ColKinds \ {"lesssub", "moresub"}, t \in Tags, n \in PNames, n2 \in PNames : AddPointCols(k, t, n, n2)
   \/ \E k \in ColKinds, t \in Tags, n \in ANames, n2 \in ANames : AddAnalogCols(k, t, n, n2)
   \/ \E i \in 1..Len(UserParams) : SetParam(UserParams[i].g, UserParams[i].p)
@@ -433,6 +435,10 @@ Next ==
 Spec == Init /\ [][Next]_vars
 
 (* ---------- what is exported for the replay (direction B) ---------- *)
+\* quick tiers replay a random 1/k sample of the transitions (environment variable SAMPLEK; TLC still explores and checks all of them);
+\* every sampled case executes its whole path from Init on the real object
+\* (the parameter keeps TLC from evaluating the random choice once, as a constant)
+Sampled(n) == LET k == atoi(IOEnv.SAMPLEK) IN IF k <= 1 THEN TRUE ELSE RandomElement(1..(k + 0 * n)) = 1
 AbsHdr(h) == h @@ [nanalogs |-> HdrAnalogs(h), nframes |-> HdrFrames(h)]
 Abs(o) == [hdr |-> AbsHdr(o.hdr), prm |-> o.prm, grp |-> o.grp, frm |-> o.frm]
 
